@@ -267,7 +267,7 @@ def expected_registration(model, patterns):
 
 
 # ----------------------------------------------------------------- runnable models
-def runnable_model(rng, dtype=torch.float64, allow_conv=True, unsupported=True, max_layers=4, allow_frozen=False, small=True):
+def runnable_model(rng, dtype=torch.float64, allow_conv=True, unsupported=True, max_layers=4, allow_frozen=False, small=True, allow_swap=True):
     """A runnable nn.Sequential. Returns (model, input_shape_without_batch, info)."""
     layers = []
     info = dict(desc=[])
@@ -317,7 +317,7 @@ def runnable_model(rng, dtype=torch.float64, allow_conv=True, unsupported=True, 
         feat = rng.randint(1, hi)
         nd = rng.random() < 0.35
         in_shape = ((rng.randint(1, 3), feat) if nd else (feat,))
-        if nd and rng.random() < 0.4:
+        if nd and rng.random() < 0.4 and allow_swap:
             layers.append(SwapLead())   # the first Linear then receives a transposed (non-contiguous) N-d input
             info['desc'].append('swap')
     nlin = rng.randint(1, max(1, max_layers - (1 if use_conv else 0)))
